@@ -1,7 +1,7 @@
 (* C06 -- comparisons, stepping and extremes agree with the real order of the value set.
    Statements only.  Models: PositModel.v, FixpntModel.v, IntegerModel.v, CfloatModel.v. *)
-From Coq Require Import ZArith QArith Lia.
-From UV Require Import PositMono2 PositVal PositSpec Num PositModel PositProps PositOrder FixpntModel IntegerModel IntProps
+From Coq Require Import ZArith QArith Lia List.
+From UV Require Import LimitsModel PositMono2 PositVal PositSpec Num PositModel PositProps PositOrder FixpntModel IntegerModel IntProps
   CfloatSpec CfloatModel CfloatProps.
 Local Open Scope Z_scope.
 
@@ -42,6 +42,21 @@ Theorem C06_cfloat_magnitude_order : forall n es, 1 <= es -> es + 1 < n -> foral
   (cf_val n es m < cf_val n es m')%Q.
 Proof. exact cf_val_mono. Qed.
 Print Assumptions C06_cfloat_magnitude_order.
+
+(* advertised extremes (std::numeric_limits max / lowest, LimitsModel.v) are the extremes of the value sets: every fixpnt / integer
+   encoding reads a value between lowest and max, and those two encodings attain the bounds *)
+Theorem C06_fixpnt_integer_limits_are_extremes : forall n, 2 <= n ->
+  sgn n (nth 0 (fixpnt_limits n) 0) = 2^(n-1) - 1 /\ sgn n (nth 1 (fixpnt_limits n) 0) = - 2^(n-1) /\
+  nth 0 (integer_limits n) 0 = nth 0 (fixpnt_limits n) 0 /\ nth 1 (integer_limits n) 0 = nth 1 (fixpnt_limits n) 0 /\
+  forall a, sgn n (nth 1 (fixpnt_limits n) 0) <= sgn n a <= sgn n (nth 0 (fixpnt_limits n) 0).
+Proof. exact limits_extremes. Qed.
+Print Assumptions C06_fixpnt_integer_limits_are_extremes.
+(* posit: max, lowest, min are maxpos, -maxpos, minpos, and every non-NaR encoding orders between lowest and max *)
+Theorem C06_posit_limits_are_extremes : forall n es, 2 <= n -> 0 <= es ->
+  nth 0 (posit_limits n es) 0 = M n /\ nth 1 (posit_limits n es) 0 = 2^n - M n /\ nth 2 (posit_limits n es) 0 = 1 /\
+  forall a, 0 <= a < 2^n -> a <> nar n -> sgn n (2^n - M n) <= sgn n a <= sgn n (M n).
+Proof. exact posit_limits_extremes. Qed.
+Print Assumptions C06_posit_limits_are_extremes.
 
 Example C06_witness : plt 8 1 0x80 0x81 = true /\ plt 8 1 0xff 0x00 = true /\ plt 8 1 0x01 0x7f = true /\ pinc 8 0xff = 0
   /\ fx_lt 8 0x80 0x7f = true /\ num_lt (Fin true 0) (Fin false 0) = false /\ num_eq (Fin true 0) (Fin false 0) = true
